@@ -3,7 +3,8 @@
 
   For every handler H of VModel.Handshake (the guard chains the driver runs against the Go handlers):
     * `H_ok_implies_guards` : H input = ok out → Guards_H input   (Guards_H from VModel.HandshakeSpec:
-      the conjunction the property lists, restricted to what the handler's signature can see)
+      the conjunction the property lists, restricted to what the handler's signature can see; for send_join "it is a
+      join" includes the event TYPE — `m.room.member` — since round 4, when the handler was found not to check it)
     * `H_signs_unmodified`  : the response is the received event plus ONE signature slot, that of
       (local server, local key ID) — HandleSendJoin, HandleInvite
     * `H_decision_table`    : the outcome is the error class of the FIRST failing guard of an explicit
@@ -46,8 +47,10 @@ theorem sendJoinTail_ok {i : SendJoinIn} {o : SendJoinOut} (h : sendJoinTail i =
     simp_all
 
 theorem sendJoinEventChecks_ok {i : SendJoinIn} {o : SendJoinOut} (h : sendJoinEventChecks i = .ok o) :
-    i.membership = some b!"join" ∧ i.verify = .good ∧ sendJoinTail i = .ok o := by
+    i.evType = b!"m.room.member" ∧ i.membership = some b!"join" ∧ i.verify = .good ∧ sendJoinTail i = .ok o := by
   unfold sendJoinEventChecks at h
+  split at h
+  · cases h
   split at h
   · cases h
   · split at h
@@ -64,11 +67,13 @@ theorem viaLocal_iff (i : SendJoinIn) :
   · simp_all
   · split <;> simp_all
 
-/-- HandleSendJoin accepts an event only if it is a join whose sender equals its state key, whose room
-    and event ID match the request, whose sender belongs to the requesting server, which that server
-    has validly signed, whose target is not banned and whose authorising user (if any) is local. -/
+/-- HandleSendJoin accepts an event only if it is a join — an `m.room.member` event with membership `join` — whose
+    sender equals its state key, whose room and event ID match the request, whose sender belongs to the requesting
+    server, which that server has validly signed, whose target is not banned and whose authorising user (if any) is
+    local.  The event-type conjunct is stated on its own as well (it is the clause the guard predicate once lacked):
+    the theorem does not survive a `sendJoinGuards` that forgets it. -/
 theorem sendJoin_ok_implies_guards (i : SendJoinIn) (o : SendJoinOut) (h : handleSendJoin i = .ok o) :
-    sendJoinGuards i = true := by
+    sendJoinGuards i = true ∧ i.evType = b!"m.room.member" ∧ i.membership = some b!"join" := by
   unfold handleSendJoin at h
   split at h
   · cases h
@@ -86,10 +91,11 @@ theorem sendJoin_ok_implies_guards (i : SendJoinIn) (o : SendJoinOut) (h : handl
     · cases h
     split at h
     · cases h
-    obtain ⟨hm, hv, ht⟩ := sendJoinEventChecks_ok h
+    obtain ⟨hty, hm, hv, ht⟩ := sendJoinEventChecks_ok h
     obtain ⟨_, hb, _, hvia, _, _⟩ := sendJoinTail_ok ht
     rw [viaLocal_iff] at hvia
-    simp_all [sendJoinGuards]
+    refine ⟨?_, hty, hm⟩
+    simp_all [sendJoinGuards, isJoin]
 
 /-- Whatever HandleSendJoin returns is the received event plus one signature slot: that of the local
     server under the local key ID (at model level: "out = in + signature slot (local server, key ID)");
@@ -113,7 +119,7 @@ theorem sendJoin_signs_unmodified (i : SendJoinIn) (o : SendJoinOut) (h : handle
     · cases h
     split at h
     · cases h
-    obtain ⟨_, _, ht⟩ := sendJoinEventChecks_ok h
+    obtain ⟨_, _, _, ht⟩ := sendJoinEventChecks_ok h
     obtain ⟨_, _, _, _, hs, ha⟩ := sendJoinTail_ok ht
     exact ⟨hs, ha⟩
 
@@ -127,6 +133,7 @@ def sendJoinTable (i : SendJoinIn) : List (Bool × HErr) := [
   (i.senderDomain != some i.requestOrigin, eForbidden),
   (i.eventRoomID != i.roomID, eBadJSON),
   (i.eventID != i.reqEventID, eBadJSON),
+  (i.evType != b!"m.room.member", eBadJSON),                 -- not an m.room.member event (round-4 repair)
   (i.membership.isNone, eBadJSON),
   (i.membership != some b!"join", eBadJSON),
   (i.verify == .callErr, .internal),
@@ -159,11 +166,14 @@ theorem sendJoinTail_table (i : SendJoinIn) :
 theorem sendJoinEventChecks_table (i : SendJoinIn) (out : SendJoinOut) (tail : List (Bool × HErr))
     (ht : sendJoinTail i = firstFailing tail out) :
     sendJoinEventChecks i = firstFailing ([
+      (i.evType != b!"m.room.member", eBadJSON),
       (i.membership.isNone, eBadJSON),
       (i.membership != some b!"join", eBadJSON),
       (i.verify == .callErr, .internal),
       (i.verify == .bad, eForbidden)] ++ tail) out := by
   unfold sendJoinEventChecks
+  cases hty : (i.evType != b!"m.room.member")
+  case true => simp [firstFailing]
   cases hm : i.membership with
   | none => simp [firstFailing]
   | some m =>
@@ -201,7 +211,7 @@ theorem sendJoin_decision_table (i : SendJoinIn) :
 
 /-- non-vacuity: an input on which HandleSendJoin accepts -/
 def sendJoinWitness : SendJoinIn := {
-  versionKnown := true, parses := true, stateKey := some b!"@bob:hs2", sender := b!"@bob:hs2",
+  versionKnown := true, parses := true, evType := b!"m.room.member", stateKey := some b!"@bob:hs2", sender := b!"@bob:hs2",
   eventRoomID := b!"!room:hs1", eventID := b!"$e", membership := some b!"join", contentDecodes := true,
   authorisedVia := b!"@alice:hs1", roomID := b!"!room:hs1", reqEventID := b!"$e", requestOrigin := b!"hs2",
   localServer := b!"hs1", keyID := b!"ed25519:k1", senderDomain := some b!"hs2", verify := .good,
@@ -210,6 +220,13 @@ def sendJoinWitness : SendJoinIn := {
 example : handleSendJoin sendJoinWitness = .ok { alreadyJoined := false, sig := ⟨b!"hs1", b!"ed25519:k1"⟩ } := by rfl
 example : handleSendJoin { sendJoinWitness with curMembership := some b!"ban" } = .error eForbidden := by rfl
 example : handleSendJoin { sendJoinWitness with userID := fun _ => some b!"evil" } = .error eBadJSON := by rfl
+/-- the input of the round-4 finding: everything in order except that the event is not an `m.room.member` event
+    (the unrepaired handler accepted and counter-signed it); also the case variant and the empty type -/
+example : handleSendJoin { sendJoinWitness with evType := b!"x.custom" } = .error eBadJSON := by rfl
+example : handleSendJoin { sendJoinWitness with evType := b!"m.room.Member" } = .error eBadJSON := by rfl
+example : handleSendJoin { sendJoinWitness with evType := [] } = .error eBadJSON := by rfl
+example : sendJoinGuards sendJoinWitness = true := by rfl
+example : sendJoinGuards { sendJoinWitness with evType := b!"x.custom" } = false := by rfl
 
 /-! ## HandleMakeJoin -/
 
@@ -1560,7 +1577,7 @@ example : piOutcome (performInvite { piWitness with storeSenderIDNil := true }) 
     with the event's own signature checked against the sender's key — its mxid_mapping is validly signed by
     the user's server and was stored. -/
 theorem sendJoinPseudo_ok_implies_guards (i : SendJoinPseudoIn) (o : SendJoinOut) (h : handleSendJoinPseudo i = .ok o) :
-    sendJoinPseudoGuards i = true ∧ i.selfVerify = true ∧
+    sendJoinPseudoGuards i = true ∧ i.base.evType = b!"m.room.member" ∧ i.selfVerify = true ∧
     o.sig = { signer := i.base.localServer, keyID := i.base.keyID } ∧ o.alreadyJoined = (i.base.curMembership == some b!"join") := by
   unfold handleSendJoinPseudo at h
   split at h
@@ -1585,15 +1602,15 @@ theorem sendJoinPseudo_ok_implies_guards (i : SendJoinPseudoIn) (o : SendJoinOut
       · cases h
       split at h
       · cases h
-      obtain ⟨hm, hv, ht⟩ := sendJoinEventChecks_ok h
+      obtain ⟨hty, hm, hv, ht⟩ := sendJoinEventChecks_ok h
       obtain ⟨_, hb, hcd, hvia, hs, ha⟩ := sendJoinTail_ok ht
       rw [viaLocal_iff] at hvia
       have hsv : i.selfVerify = true := by
         cases hsv : i.selfVerify
         · simp [pseudoBase, pseudoVerify, hsv] at hv
         · rfl
-      refine ⟨?_, hsv, hs, ha⟩
-      unfold sendJoinPseudoGuards sendJoinGuards
+      refine ⟨?_, hty, hsv, hs, ha⟩
+      unfold sendJoinPseudoGuards sendJoinGuards isJoin
       simp_all [pseudoVerify, pseudoBase]
 
 def sendJoinPseudoTable (i : SendJoinPseudoIn) : List (Bool × HErr) := [
@@ -1608,6 +1625,7 @@ def sendJoinPseudoTable (i : SendJoinPseudoIn) : List (Bool × HErr) := [
   (i.base.senderDomain != some i.base.requestOrigin, eForbidden),
   (i.base.eventRoomID != i.base.roomID, eBadJSON),
   (i.base.eventID != i.base.reqEventID, eBadJSON),
+  (i.base.evType != b!"m.room.member", eBadJSON),           -- not an m.room.member event (round-4 repair)
   (i.base.membership.isNone, eBadJSON),
   (i.base.membership != some b!"join", eBadJSON),
   (!i.selfVerify, eForbidden),                               -- JSONVerifierSelf against the sender's key
@@ -1650,9 +1668,10 @@ theorem sendJoinPseudo_decision_table (i : SendJoinPseudoIn) :
       have e1 : (VerifyAns.bad == VerifyAns.callErr) = false := rfl
       have e2 : (VerifyAns.good == VerifyAns.callErr) = false := rfl
       have e3 : (VerifyAns.good == VerifyAns.bad) = false := rfl
-      cases hsv : i.selfVerify <;> cases hmm : i.base.membership.isNone <;>
+      cases hsv : i.selfVerify <;> cases hty : (i.base.evType != b!"m.room.member") <;>
+        cases hmm : i.base.membership.isNone <;>
         cases hmj : (i.base.membership != some b!"join") <;>
-        simp [firstFailing, hs, h5, pseudoBase, pseudoVerify, hsv, hmm, hmj, e1, e2, e3]
+        simp [firstFailing, hs, h5, pseudoBase, pseudoVerify, hsv, hty, hmm, hmj, e1, e2, e3]
 
 def sendJoinPseudoWitness : SendJoinPseudoIn :=
   { base := { sendJoinWitness with senderDomain := some b!"hs2" }, mapping := .valid, storeOK := true, selfVerify := true }
@@ -1660,5 +1679,7 @@ def sendJoinPseudoWitness : SendJoinPseudoIn :=
 example : handleSendJoinPseudo sendJoinPseudoWitness = .ok { alreadyJoined := false, sig := ⟨b!"hs1", b!"ed25519:k1"⟩ } := by rfl
 example : handleSendJoinPseudo { sendJoinPseudoWitness with mapping := .invalid } = .error eForbidden := by rfl
 example : handleSendJoinPseudo { sendJoinPseudoWitness with selfVerify := false } = .error eForbidden := by rfl
+example : handleSendJoinPseudo { sendJoinPseudoWitness with base := { sendJoinWitness with evType := b!"m.room.name" } } = .error eBadJSON := by rfl
+example : sendJoinPseudoGuards { sendJoinPseudoWitness with base := { sendJoinWitness with evType := b!"m.room.name" } } = false := by rfl
 
 end V.C15
